@@ -487,9 +487,11 @@ func main() {
 		r.HarnessError("limits changed: %d %d (reference hard-codes 16/16 from the property's 'within limits')",
 			constants.MULTI_SIG_MAX_PUBKEY_SIZE, constants.TX_MAX_SIG_SIZE)
 	}
-	r.Require("accept", "reject", "single", "multi-n2", "multi-n3", "keylimit", "entrycount", "pair", "addr_order_independent")
+	r.Require("accept", "reject", "single", "multi-n2", "multi-n3", "keylimit", "entrycount", "pair", "addr_order_independent",
+		"history/after-getaddrs", "history/after-hash-toarray", "history/second-verify", "history/interleaved", "history/pool-order",
+		"history/mutated", "mutated_then_rejected_expected")
 	unsignedBody, hashT = body(1)
-	_, hashOther = body(2)
+	unsignedBodyOther, hashOther = body(2)
 
 	pa := polyenv.Keys(4)
 	var k [4]*key
@@ -677,7 +679,14 @@ func main() {
 		add("entrycount", multi...)
 	}
 
-	// run (VerifyTransaction is a pure function of the transaction; cases are independent)
+	const sid = "verif-c39-stateless"
+	if _, err := stateless.NewValidator(sid); err != nil {
+		r.HarnessError("stateless.NewValidator: %v", err)
+	}
+	statelessPID = actor.NewLocalPID(sid)
+	otherValid = []entry{{[]*key{k[1]}, 1, []sym{W(k[1])}}}   // W = signed over the other body: valid THERE
+	otherInvalid = []entry{{[]*key{k[1]}, 1, []sym{W(k[0])}}} // other key's signature
+	// run (cases are independent; every verdict is taken on a fresh object, then on objects with a history — hist.go)
 	var wg sync.WaitGroup
 	ch := make(chan int, 256)
 	capped := false
@@ -694,6 +703,7 @@ func main() {
 					continue
 				}
 				runCase(r, cases[i])
+				runHistories(r, cases[i])
 			}
 		}()
 	}
@@ -802,11 +812,6 @@ func main() {
 	}
 
 	// G. the stateless validator actor gives the same verdict as VerifyTransaction (pool path), on the pair class
-	const sid = "verif-c39-stateless"
-	if _, err := stateless.NewValidator(sid); err != nil {
-		r.HarnessError("stateless.NewValidator: %v", err)
-	}
-	statelessPID = actor.NewLocalPID(sid)
 	actorAsked := 0
 	for _, a := range E {
 		for _, b := range E[:4] {
@@ -835,8 +840,8 @@ func main() {
 		"SM2 / Ed25519 private keys are generated per run (ontology-crypto GenerateKeyPair); the verdicts do not depend on them",
 		"an entry with zero keys cannot be encoded and is tested on an in-memory transaction only")
 	r.Finish(map[string]any{
-		"rule": fmt.Sprintf("single entries: 3 key types × all signature sequences len≤2 over 11-12 symbols × m∈0..2; n=2: 6 key lists × sequences len≤%d over 8 symbols × m∈0..3; n=3: 5 key lists × len≤%d over 8 symbols × m∈0..4; (thorough: n=4: 2 key lists × len≤4 over 8 symbols × m∈0..5); n∈{15,16,17} × m∈{0,1,2,n-1,n,n+1} × 8 signature patterns; entry counts 0, all pairs%s of 12 entries, 15/16/17 entries (honest, one bad at each position, repeated, multi); addresses: all ≥2-subsets (≤4) of 6 keys × all m × all permutations + 16-key lists",
+		"rule": fmt.Sprintf("every case × 7 object histories (fresh from bytes; after GetSignatureAddresses; after Hash/ToArray; verified twice; interleaved with another valid and another invalid tx; pool order GetSignatureAddresses→ToArray→stateless actor; accepted→signature byte flipped in place→restored). single entries: 3 key types × all signature sequences len≤2 over 11-12 symbols × m∈0..2; n=2: 6 key lists × sequences len≤%d over 8 symbols × m∈0..3; n=3: 5 key lists × len≤%d over 8 symbols × m∈0..4; (thorough: n=4: 2 key lists × len≤4 over 8 symbols × m∈0..5); n∈{15,16,17} × m∈{0,1,2,n-1,n,n+1} × 8 signature patterns; entry counts 0, all pairs%s of 12 entries, 15/16/17 entries (honest, one bad at each position, repeated, multi); addresses: all ≥2-subsets (≤4) of 6 keys × all m × all permutations + 16-key lists",
 			maxLen2, maxLen3, map[bool]string{true: " and triples", false: ""}[r.Thorough()]),
-		"cases": len(cases),
+		"cases": len(cases), "object_histories": append([]string{"fresh"}, histories...),
 	})
 }
